@@ -6,7 +6,7 @@ import os
 import re
 import tempfile
 
-from harness import core
+from harness import core, proto
 from harness.props import common
 from harness import str_validate_agent as SV
 
@@ -148,6 +148,49 @@ def run(ctx):
                     ctx.disagreements += 1
                     ctx.violation("correspondence", f"`{spec[0]}` with {rp['vars']}: model {mm}, implementation {rr}",
                                   dict(rp, correspondence="Ckl.Str." + op + " vs implementation"))
+    # ---------------- the repository's own string library source (string.ckl, …) run by the model evaluator on the real base environment
+    if ctx.build.ok:
+        from harness import session
+
+        def lit(tv):
+            ty, v = tv
+            if ty == 's':
+                return str(proto.to_ckl(('s', v)))
+            if ty == 'i':
+                return str(v)
+            return str(proto.to_ckl(('l', tuple(('s', x) for x in v))))
+        idx = [i for i, r in enumerate(real) if r[0] not in ('pyexc', 'timeout')]
+        if not ctx.thorough:
+            idx = ctx.rng.sample(idx, min(len(idx), 5000))
+        progs = [["".join(f"def {k} = {lit(tv)}; " for k, tv in cases[i][2][1].items()) + cases[i][2][0]] for i in idx]
+        outs, why = session.run_lib_sessions(progs, legacy=True)
+        if outs is None:
+            ctx.disagreements += 1
+            ctx.violation("correspondence", f"the model evaluator cannot build the base environment from the bundled sources: {why[:300]}",
+                          {"op": "libsetup", "correspondence": "Ckl.eval on legacy.ckl vs get_base_environment"})
+        else:
+            for i, m in zip(idx, outs):
+                op, req, spec = cases[i]
+                mo = m[0][0]
+                if mo[0] == 'fail':
+                    ctx.count("library_source_model_abstains")
+                    continue
+                ctx.count("library_source_model_checked")
+                r = real[i]
+                if mo[0] == 'rt':
+                    got = ['err']
+                elif mo[0] == 'val':
+                    v = mo[1]
+                    got = (['s', v[1]] if v[0] == 's' else ['b', v[1]] if v[0] == 'b' else ['i', v[1]] if v[0] == 'i' else
+                           ['L', [x[1] if x[0] == 's' else ['?', str(x)] for x in v[1]]] if v[0] == 'l' else ['other', str(v)])
+                else:
+                    got = [mo[0]]
+                rr = ['err'] if r[0] == 'err' else r
+                if got != rr and rr[0] != 'other':
+                    ctx.disagreements += 1
+                    ctx.violation("correspondence", f"`{spec[0]}` with {({k: v[1] for k, v in spec[1].items()})}: the model evaluator running the bundled "
+                                  f"library source gives {got}, the implementation {rr}",
+                                  {"op": op, "program": progs[idx.index(i)][0], "correspondence": "Ckl.eval on the bundled .ckl sources vs Interpreter"})
     # ---------------- laws between functions, through interpreted programs
     it, _ = common.fresh_interpreter(True, True)
     from ckl.values import ValueString, ValueList
